@@ -25,3 +25,7 @@ func (c *HTTPHealthChecker) VerifCheckAll(ctx context.Context) {
 		c.checkEndpointSafely(ctx, ep)
 	}
 }
+
+// VerifRoundWithContext runs a periodic round under the caller's context (a round whose budget runs out while
+// probes are in flight).
+func (c *HTTPHealthChecker) VerifRoundWithContext(ctx context.Context) { c.performHealthChecks(ctx) }
